@@ -41,3 +41,38 @@ Example C11_witness :
   eval_binop OMinus (PVStr [55]%N) (PVNum 2) = Ok (PVNum 5) /\
   eval_binop OPlus (PVNum 9223372036854775807) (PVNum 1) = Ok (PVNum (-9223372036854775808)).
 Proof. vm_compute. repeat split. Qed.
+
+(* ---- precedence and associativity ---- *)
+From Model Require Import Parser.
+From Spec Require Import ExprSpec.
+From Proofs Require Import PrattRoundTrip.
+
+(* Operators bind as documented - and/or weakest, then == !=, then < > <= >=, then + -, then * / %,
+   unary not/head/tail tightest - and binary operators associate to the left: for EVERY expression
+   tree and EVERY way of writing it in which parentheses stand at least where that reading needs
+   them (minimal parenthesisation, full parenthesisation, anything in between, redundant parentheses
+   included), the expression parser returns exactly that tree and consumes all tokens. *)
+Theorem C11_precedence_roundtrip : forall e k ts, written e 0 k ts ->
+  pratt ts (2 * length ts + 2) 0 0 = POk (e, length ts).
+Proof. exact pratt_roundtrip_lemma. Qed.
+Print Assumptions C11_precedence_roundtrip.
+
+(* non-vacuity: a - b - c is (a - b) - c; a + b * c is a + (b * c); not a and b is (not a) and b *)
+Definition tk (t : ttype) (l : bytes) : token := {| ttyp := t; lexeme := l |}.
+Example C11_precedence_witness :
+  let a := tk IDENTIFIER [97%N] in let b := tk IDENTIFIER [98%N] in let c := tk IDENTIFIER [99%N] in
+  written (PEBin OMinus (PEBin OMinus (PEVar [97%N]) (PEVar [98%N])) (PEVar [99%N])) 0 8 [a; tk MINUS []; b; tk MINUS []; c] /\
+  pratt [a; tk PLUS []; b; tk MULT []; c] 12 0 0 = POk (PEBin OPlus (PEVar [97%N]) (PEBin OMult (PEVar [98%N]) (PEVar [99%N])), 5) /\
+  pratt [tk NOT []; a; tk AND []; b] 10 0 0 = POk (PEBin OAnd (PEUn UNot (PEVar [97%N])) (PEVar [98%N]), 4) /\
+  pratt [a; tk MINUS []; tk OPENPAREN []; b; tk MINUS []; c; tk CLOSEPAREN []] 16 0 0 =
+    POk (PEBin OMinus (PEVar [97%N]) (PEBin OMinus (PEVar [98%N]) (PEVar [99%N])), 7).
+Proof.
+  cbv zeta. split; [|vm_compute; repeat split].
+  apply (w_bare (PEBin OMinus (PEBin OMinus (PEVar [97%N]) (PEVar [98%N])) (PEVar [99%N])) 0); [cbn; lia|].
+  apply (b_bin OMinus (PEBin OMinus (PEVar [97%N]) (PEVar [98%N])) (PEVar [99%N]) 8 100 [tk IDENTIFIER [97%N]; tk MINUS []; tk IDENTIFIER [98%N]] [tk IDENTIFIER [99%N]] (tk MINUS [])); [reflexivity| |].
+  - apply (w_bare (PEBin OMinus (PEVar [97%N]) (PEVar [98%N])) 7); [cbn; lia|].
+    apply (b_bin OMinus (PEVar [97%N]) (PEVar [98%N]) 100 100 [tk IDENTIFIER [97%N]] [tk IDENTIFIER [98%N]] (tk MINUS [])); [reflexivity| |];
+      [apply (w_bare (PEVar [97%N]) 7 [tk IDENTIFIER [97%N]]); [cbn; lia|apply b_atom; cbn; auto]
+      |apply (w_bare (PEVar [98%N]) 8 [tk IDENTIFIER [98%N]]); [cbn; lia|apply b_atom; cbn; auto]].
+  - apply (w_bare (PEVar [99%N]) 8 [tk IDENTIFIER [99%N]]); [cbn; lia|apply b_atom; cbn; auto].
+Qed.
